@@ -432,6 +432,7 @@ type schedRun struct {
 	stop   chan struct{}
 	ending bool
 
+	grantWrong []string
 	mocks     []*schedMock
 	refs      []*runnerRef
 	reqs      []*schedReq
@@ -1277,6 +1278,13 @@ func (r *schedRun) apply(e schedEv) bool {
 			if id >= 0 && r.mocks[id].loadReq != q.id {
 				r.stats["sc_reuse"]++
 			}
+			// "reuses that runner when compatible ... a request with incompatible options is served by a runner started with
+			// its options" (Properties/C11Opts.lean granted_runner_has_request_options): the runner handed over serves this
+			// request's options class (context size, use_mmap, adapter, projector) and model
+			if id >= 0 && !q.done && !nilLlama && (r.mocks[id].opts != q.opts || r.mocks[id].model != q.model) {
+				r.grantWrong = append(r.grantWrong, fmt.Sprintf("request %d (model %d, options class %d) received runner %d, which was started for model %d with options class %d",
+					q.id, q.model, q.opts, id, r.mocks[id].model, r.mocks[id].opts))
+			}
 		}
 		failed := func(err error) {
 			q.nErr++
@@ -1466,6 +1474,9 @@ func (r *schedRun) apply(e schedEv) bool {
 // L2 monitors on the real scheduler (independent of the model)
 
 func (r *schedRun) monitors(e schedEv, subq *schedReq, sn schedSnap) {
+	for _, w := range r.grantWrong {
+		r.flag("c11-granted-incompatible", w)
+	}
 	// C01
 	for _, q := range r.reqs {
 		if q.grantClosed != "" {
